@@ -144,8 +144,22 @@ func MintUsage(k *Key, cn string, nb, na time.Time, serial int64, profile int) *
 // Wide returns a certificate valid 20 years around t.
 func Wide(k *Key, t time.Time) *Cert {
 	base := time.Date(t.Year(), 1, 1, 0, 0, 0, 0, time.UTC)
+	if WideBlankTail {
+		// certificates are binary: one in forty-odd ends in an octet that reads as white space in text (TAB, LF, VT, FF,
+		// CR, SP). Serial numbers are tried until the encoding ends that way (deterministic for RSA; cached in any case).
+		for serial := int64(1000); serial < 1600; serial++ {
+			c := Mint(k, base.AddDate(-10, 0, 0), base.AddDate(10, 0, 0), serial)
+			if b := c.DER[len(c.DER)-1]; b == ' ' || (b >= 0x09 && b <= 0x0d) {
+				return c
+			}
+		}
+	}
 	return Mint(k, base.AddDate(-10, 0, 0), base.AddDate(10, 0, 0), 1)
 }
+
+// WideBlankTail makes Wide return certificates whose DER encoding ends in an ASCII white-space octet (set and reset
+// by single-goroutine generators around the construction of a provider).
+var WideBlankTail bool
 
 // PublicEqual reports whether pub is k's public key.
 func (k *Key) PublicEqual(pub crypto.PublicKey) bool {
